@@ -10,11 +10,11 @@ HERE = os.path.dirname(os.path.dirname(os.path.abspath(__file__)))
 CLAIMED = {
     "C07": dict(
         text=("Lean theorems about the word-level model of hilbert_curve.py: for every dimension n and every order p the two round trips, the "
-              "ranges and 'every cell visited exactly once' (Props/C07.lean, *_all_n); for n = 2 in addition adjacency, end points, refinement and "
+              "ranges, 'every cell visited exactly once' and the two end points (Props/C07.lean, *_all_n); n = 1 is the identity; for n = 2 in addition adjacency, refinement and "
               "the identity with the classical Hilbert recursion. Tied to the code by an exhaustive (n*p <= 14 quick / 20 thorough) plus sampled "
               "(all p up to 62/n) correspondence of both entry points, and the property's relations checked directly on the implementation."),
         note=("Trusted: Lean kernel; axioms ⊆ {propext, Classical.choice, Quot.sound} audited per run; the hand-written model "
-              "(tied by correspondence only); int64 overflow not modelled (Nat); adjacency / refinement / end points for n ∈ {1,3} are covered by "
+              "(tied by correspondence only); int64 overflow not modelled (Nat); adjacency / refinement for n >= 3 are covered by "
               "the executable model and correspondence, not by a theorem."),
         technique="Lean 4 proof (loop involutions on word lists, Gray code, bit transposition) + model/implementation correspondence",
         design="I.2 C07, II §3 C07"),
